@@ -299,7 +299,9 @@ ICodePal   == << <<>>, <<"A">>, <<"Z">> >>
 ResNumPal  == << -12, -1, 0, 1, 42, 999, 1000, 9999 >>
 ResNamePal == << <<"A">>, <<"G">>, <<"D","C">>, <<"P","S","U">>, <<"M","G">>, <<"H","O","H">>, <<"5","M","C">>,
                 <<"F","E">>, <<"Z","N">>, <<"N","A">> >>
-ChainPal   == << <<"A">>, <<"B">>, <<"C">>, <<"a">>, <<"1">>, <<"Z">> >>
+ChainPal   == << <<"A">>, <<"B">>, <<"C">>, <<"a">>, <<"1">>, <<"Z">>, <<>> >>
+\* <<>> = a blank chain identifier (column 22 empty): legal in PDB files (MD and modelling output), not
+\* representable in mmCIF - tables using it are exercised on the PDB -> PDB path only
 RecPal     == << KwATOM, KwHETATM >>
 CoordPal   == << -999999, -1, 0, 1, 12345, 999999, 9999999 >>    \* milli-units; 8.3f holds -999.999 .. 9999.999
 OccPal     == << 100, 50, 0, 33 >>
